@@ -271,7 +271,10 @@ class SymInt:
         if not is_intlike(o):
             return True
         return SymBool(self.t != toint(o))
-    __hash__ = None
+
+    def __hash__(self):
+        # code that uses a number as a dictionary / cache key (functools.lru_cache): the value is fixed on this path, the others are forked
+        return hash(concretise(self, "__hash__"))
 
     def __bool__(self):
         return E().branch(self.t != 0)
